@@ -196,6 +196,6 @@ SUBS = [
 
 MANIFEST = {
     "technique": "property-based round-trip testing + exhaustive enumeration of all AFM constraint trees of depth<=2 over 3 names; oracle = generating spec (names, tree, attribute domains/default/null, one-to-one truth-table equivalence) plus byte/observation idempotence",
-    "level_text": "Generated AFM-fragment models are written and read 3-4 times; every constraint tree of depth <= 2 over {A,B,C} (7 operators) goes through the cycle in thorough (a seeded tenth in quick). Cycle 1 is compared with the spec, later cycles with the previous one.",
+    "level_text": "Generated AFM-fragment models are written and read 3-4 times; every constraint tree of depth <= 2 over {A,B,C} (7 operators) goes through the cycle in thorough (a seeded tenth in quick). Cycle 1 is compared with the spec, later cycles with the previous one. Also: models of 200-400 features, wide groups with multi-digit bounds, attribute strings with arbitrary characters, concatenation-twin attribute names, and the same-path decoys / relative paths / other file system of C01. A sample of every sub-check additionally runs in a `python -OO` child with the root logger at DEBUG.",
     "level_note": "Trusted: vf/build.py, vf/roundtrip.py, vf/logic.py, Hypothesis; the AFM lexical facts in DESIGN Appendix A for the name/value generators.",
 }
